@@ -88,6 +88,10 @@ def conditions(tier):
     # equal-length frame-shifted pairs at the largest radius ('ACA' / 'CAC': distance 2 with 3 mismatches) - two letters keep (3,3) k=3 cheap
     out.append(_mk((3, 3), 3, among="AC", budget=600))
     out.append(_mk((3, 3), 3, entry="symdel", among="AC", budget=600))
+    # letters outside ASCII (one character, several UTF-8 bytes): an edit is an edit of CHARACTERS
+    out.append(_mk((2, 2), 1, among="a\u03b1\u0434"))
+    out.append(_mk((3, 2), 1, entry="symdel", among="a\u03b1"))
+    out.append(_mk((2, 2, 1), 2, among="\u03b1\u20ac"))
     out.append(_mk((2, 2), 1, entry="symdel"))
     out.append(_mk((3, 2), 2, entry="symdel"))
     if tier == "thorough":
